@@ -438,3 +438,25 @@ func init() {
 
 var _ = errors.New
 var _ = iso8583errors.PackError{}
+
+func init() {
+	// C04 at decoder level: no panic whatever the bytes / announced length
+	regCheck("C04", "enc.dec", func(a []*Sx) (nt bool, fs []Finding) {
+		defer func() {
+			if r := recover(); r != nil {
+				fs = append(fs, Finding{"c04-panic:enc.dec:" + a[0].Atom, fmt.Sprintf("Decode panicked: %v", clip(fmt.Sprint(r)))})
+			}
+		}()
+		encoders[a[0].Atom].Decode(a[2].Hex(), a[1].Int())
+		return true, nil
+	})
+	regCheck("C04", "pref.dec", func(a []*Sx) (nt bool, fs []Finding) {
+		defer func() {
+			if r := recover(); r != nil {
+				fs = append(fs, Finding{"c04-panic:pref.dec:" + a[0].Atom, fmt.Sprintf("DecodeLength panicked: %v", clip(fmt.Sprint(r)))})
+			}
+		}()
+		prefixers[a[0].Atom].DecodeLength(a[1].Int(), a[2].Hex())
+		return true, nil
+	})
+}
